@@ -20,9 +20,13 @@ PROPS = {
         "level_text": "The overlay algorithm (get, the MergeOverlay iterator, set/remove, commit replay) is transcribed into Lean and proved to refine a plain ordered map for every base, every op history, all bounds, both orders and any stacking depth; the transcription is tied to /repo by running both on the same generated op sequences (and a model-free ordered-map oracle on the implementation's answers).",
         "level_note": "Trusted: Lean kernel + propext/Classical.choice/Quot.sound; the hand transcription of transactions.rs, validated only by the generator-bounded correspondence; MemoryStorage (cosmwasm-std) modelled as a sorted association list; Rust borrow rules for 'base not mutated while borrowed'; non-empty values.",
         "props_module": "CwMt.Props.C06",
-        "slices": [{"name": "overlay", "quick": 20000, "thorough": 300000, "predicate": "pred_overlay", "nontrivial": "nt_overlay"}],
+        "slices": [{"name": "overlay", "quick": 20000, "thorough": 600000, "predicate": "pred_overlay", "nontrivial": "nt_overlay"},
+                   # exhaustive small scope (thorough tier only): all 13^5 mutator sequences, each fully observed
+                   {"name": "overlay-exh", "quick": 0, "thorough": 371293, "predicate": "pred_overlay", "nontrivial": "nt_overlay", "exhaustive": True}],
         "rule": "random op sequences (8-60 ops) over 12 fixed keys (empty key, 00/ff bytes, mutual prefixes) plus random short keys, "
-                "4 values, stack depth <= 4 (5 thorough), all bound pairs incl. none/inverted/equal, both orders; a case is non-trivial "
+                "4 values, stack depth <= 4 (5 thorough), all bound pairs incl. none/inverted/equal, both orders; thorough tier adds the EXHAUSTIVE enumeration of all 13^5 = 371 293 sequences of five mutators "
+                "(set of 3 mutually-prefix keys x 2 values, removes, push, commit, discard, no-op) over a one-entry base, each followed by all gets, all 4x4 bound pairs in both orders, "
+                "the base range and the root dump, then closing every level; a case is non-trivial "
                 "if a range is evaluated on a cache of depth >= 1 that holds at least one local delta; distinct = distinct op sequence",
         "trusted_base": KV_TB,
         "assumptions": ["&dyn Storage base is not mutated while a cache borrows it (Rust type system)"],
